@@ -58,7 +58,8 @@ def wrap(r, leaf, maxdepth=4):
     for _ in range(depth):
         c = r.random()
         if c < 0.4:
-            t = ("arr", t, r.randint(1, 5) if depth <= 4 else r.randint(1, 2))
+            # (an array length of 0 is accepted by the front end like any other)
+            t = ("arr", t, (0 if r.random() < 0.12 else r.randint(1, 5)) if depth <= 4 else r.randint(1, 2))
         elif c < 0.7:
             t = ("dyn", t)
         else:
@@ -182,6 +183,14 @@ def mutate(r, decls, kind):
     if kind == "misspelled":
         f = decls[di]["fields"][fi]
         f["type"] = replace_leaf(f["type"], (leaf[0], leaf[1] + "x"))
+        return decls
+    if kind == "case-variant":
+        # the declared name in another letter case: names are case-sensitive
+        f = decls[di]["fields"][fi]
+        other = leaf[1].swapcase() if r.random() < 0.5 else leaf[1].lower()
+        if other == leaf[1] or any(d.get("name") == other for d in decls):
+            return None
+        f["type"] = replace_leaf(f["type"], (leaf[0], other))
         return decls
     raise ValueError(kind)
 
@@ -307,7 +316,7 @@ def one_schema(run, i, tmp):
         run.case(sig="pos|" + p)
     if not paths:
         run.case(sig="pos|noref")
-    for kind in ("undeclared", "forward", "self", "misspelled", "alias"):
+    for kind in ("undeclared", "forward", "self", "misspelled", "alias", "case-variant"):
         rr = run.rng("mut", i, kind)
         m = mutate(rr, decls, kind)
         if m is None:
